@@ -13,6 +13,7 @@ import (
 func (e *Exec) step(fr *Frame, st *State, in ssa.Instruction, b *ssa.BasicBlock, incoming map[*ssa.BasicBlock][]edge, rets *[]retInfo, c *Contract) bool {
 	e.curFr, e.curIn = fr, in
 	defer func() { e.curFr, e.curIn = fr, nil }()
+	e.confine(fr, st, in, c)
 	switch x := in.(type) {
 	case *ssa.DebugRef:
 	case *ssa.Alloc:
